@@ -105,6 +105,11 @@ def ev(e, env):
                 raise EvalError('zero', 'modulo by zero')
             return x % y
         raise ValueError(op)
+    if t == 'div':
+        x, y = _num(ev(e[1], env), 'arith'), _num(ev(e[2], env), 'arith')
+        if y == 0:
+            raise EvalError('zero', 'division by zero')
+        return x / y
     if t == 'cmp':
         x, y = ev(e[2], env), ev(e[3], env)
         op = e[1]
